@@ -90,6 +90,8 @@ def lookupF (op : String) (p : List Int) (var : String) (cbs : List Cb) : Option
   | "Catch", [v], [] => some (frunner (catchF (fun c _ => [Notif.next c v, Notif.complete c])))
   | "TapOnSubscribe", [], [] => some (frunner (tapOnSubscribeF (α := Int)))
   -- operators without callbacks (faults in the source and in the final observer only)
+  -- a hand-written observer subscribed directly to the source: what the source's own subscriber lets through (the identity machine)
+  | "RawDirect", [], [] => some (frunner (plain (skipM (α := Int) 0)))
   | "Take", [n], [] => if n == 0 then none else some (frunner (plain (takeM (α := Int) (natOf n))))
   | "Skip", [n], [] => some (frunner (plain (skipM (α := Int) (natOf n))))
   | "ToSlice", [], [] => some (frunner (plain (toSliceM (α := Int))))
